@@ -14,6 +14,10 @@ namespace smt
 
     SMT_EXPORT bool theory::backtrack_analyze_and_backjump() noexcept
     {
+        // the conflict has been found out of propagation: whatever has been enqueued in the meanwhile is retracted by the following backtracking and must not be propagated..
+        while (!sat->prop_q.empty())
+            sat->prop_q.pop();
+
         // we backtrack to a level at which we can analyze the conflict..
         size_t bt_level = 0;
         for (const auto &l : cnfl)
